@@ -677,3 +677,94 @@ Fixpoint nonce_steps (lh : pystr -> pystr -> pystr) (w : list (pystr * client)) 
 Definition chk_trace_nonce (t : trace_case) : bool :=
   let '(cfgs, tbl, tr) := t in nonce_steps (lhash_of tbl) (init_world cfgs) [] tr.
 Definition chk_history (t : trace_case) : bool := chk_trace t && chk_trace_nonce t.
+
+(* ---- values presented AS A STATE that are not states (C09) ----
+   A client keeps two tables side by side: cl_db (state -> record: what init_authorization / begin created) and
+   cl_map (Current._map, ONE namespace: nonce -> state, subject -> state, session id -> state, state of a logout
+   request -> state).  Only a key of cl_db is a state.  A key of cl_map - whatever it is bound to - presented as the
+   `state` of a front-channel response, as the state argument of get_tokens / refresh_access_token /
+   get_user_info, or to the look-ups of the RPHandler, is an unknown state. *)
+Definition is_begin (o : op) : bool := match o with OBegin _ _ _ _ => true | _ => false end.
+
+(* read-only look-ups through a state value, and the re-basing step of a trace *)
+Inductive probe :=
+| PIssuer (st : pystr)        (* rph.state2issuer(st): what get_client_from_session_key and every routed call use *)
+| PSession (i st : pystr)     (* issuer2rp[i].get_session_information(st) = cstate.get(st) *)
+| PSync.                      (* an API call the model has no step for (finalize pipeline, logout): the replay
+                                 continues from the OBSERVED stores *)
+Definition probe_out (w : list (pystr * client)) (p : probe) : res record :=
+  match p with
+  | PIssuer st => match state2issuer w st with
+                  | Some (VStr i) => Ok [(PS "iss", VStr i)]
+                  | Some _ => Unmodelled
+                  | None => Ok []
+                  end
+  | PSession i st => match assoc i w with Some c => db_get (cl_db c) st | None => Err KeyError end
+  | PSync => Ok []
+  end.
+Fixpoint resync (w : list (pystr * client)) (s : world_snapshot) : list (pystr * client) :=
+  match w, s with
+  | (i, c) :: w', (_, (db, m)) :: s' => (i, mkClient (cl_cfg c) db m) :: resync w' s'
+  | _, _ => w
+  end.
+
+Definition ptrace_case :=
+  (list (pystr * rp_cfg) * list (pystr * pystr * pystr) * list ((op + probe) * (res record * world_snapshot)))%type.
+Fixpoint check_psteps (lh : pystr -> pystr -> pystr) (w : list (pystr * client))
+         (tr : list ((op + probe) * (res record * world_snapshot))) (i : nat) : option nat :=
+  match tr with
+  | [] => None
+  | (inl o, (obs, snap)) :: rest =>
+      let '(w1, out) := step lh w o in
+      match out with
+      | Unmodelled => None
+      | _ => if res_eqb dict_eqb out obs && world_eqb w1 snap then check_psteps lh w1 rest (S i) else Some i
+      end
+  | (inr PSync, (_, snap)) :: rest => check_psteps lh (resync w snap) rest (S i)
+  | (inr p, (obs, snap)) :: rest =>
+      match probe_out w p with
+      | Unmodelled => None
+      | out => if res_eqb dict_eqb out obs && world_eqb w snap then check_psteps lh w rest (S i) else Some i
+      end
+  end.
+Definition first_bad_pstep (t : ptrace_case) : option nat :=
+  let '(cfgs, tbl, tr) := t in check_psteps (lhash_of tbl) (init_world cfgs) tr O.
+
+(* the theorem C09_accepted_state_is_record_key, evaluated on a replayed trace: every accepted operation other
+   than the start of a flow (handed back without an error member) presents a key of the RECORD store of the client
+   it was executed on, and every look-up that finds an issuer / a session was made with a key of a record store *)
+Definition record_key (w : list (pystr * client)) (i k : pystr) : bool :=
+  match assoc i w with Some c => has_key k (cl_db c) | None => false end.
+Definition presents_record_key (w : list (pystr * client)) (o : op) : bool :=
+  match op_target w o with
+  | Some i => match assoc i w with
+              | Some c => existsb (fun kv => op_mentions o (fst kv)) (cl_db c)
+              | None => false
+              end
+  | None => false
+  end.
+Fixpoint state_psteps (lh : pystr -> pystr -> pystr) (w : list (pystr * client))
+         (tr : list ((op + probe) * (res record * world_snapshot))) : bool :=
+  match tr with
+  | [] => true
+  | (inl o, _) :: rest =>
+      let '(w1, out) := step lh w o in
+      match out with
+      | Unmodelled => true
+      | Ok stored => (is_begin o || has_key (PS "error") stored || presents_record_key w o) && state_psteps lh w1 rest
+      | Err _ => state_psteps lh w1 rest
+      end
+  | (inr PSync, (_, snap)) :: rest => state_psteps lh (resync w snap) rest
+  | (inr (PIssuer st), _) :: rest =>
+      (match state2issuer w st with
+       | Some _ => existsb (fun ic => has_key st (cl_db (snd ic))) w
+       | None => true
+       end) && state_psteps lh w rest
+  | (inr (PSession i st), _) :: rest =>
+      (match probe_out w (PSession i st) with Ok _ => record_key w i st | _ => true end) && state_psteps lh w rest
+  end.
+Definition chk_ptrace (t : ptrace_case) : bool :=
+  match first_bad_pstep t with None => true | Some _ => false end.
+Definition chk_ptrace_states (t : ptrace_case) : bool :=
+  let '(cfgs, tbl, tr) := t in state_psteps (lhash_of tbl) (init_world cfgs) tr.
+Definition chk_bound_keys (t : ptrace_case) : bool := chk_ptrace t && chk_ptrace_states t.
